@@ -21,6 +21,7 @@ from decimal import Decimal
 from typing import Iterable, List, Sequence
 
 import numpy as np
+import sympy
 
 import xir
 
@@ -327,7 +328,9 @@ def _param_to_xir(a, prog):
         else:
             symbolic_func = a.copy()
             for s in symbolic_func.free_symbols:
-                symbolic_func = symbolic_func.subs(s, s.name)
+                # a plain symbol, not the name string: SymPy would read a name such as "gamma",
+                # "beta" or "E" as its own function or constant of that name
+                symbolic_func = symbolic_func.subs(s, sympy.Symbol(s.name))
             a = str(symbolic_func)
 
     elif isinstance(a, str):
